@@ -94,6 +94,45 @@ def c04(req):
     return {"violated": False, "observation": "returned a tree"}
 
 
+def c04seq(req):
+    """history independence: each query parsed after the others must give what a first parse gives"""
+    import subprocess, os
+    from luqum.parser import parser
+    import luqum.thread as TH
+
+    def outcome(fn, q):
+        try:
+            t = fn(q)
+        except Exception as e:  # noqa: BLE001
+            return "%s: %s" % (type(e).__name__, e)
+        return "%r / %r / %r" % (t, t.__str__(head_tail=True) if t is not None else None,
+                                 [(n.pos, n.size) for _, n in walk(t)] if t is not None else None)
+    qs = req["queries"]
+    ref = {}
+    for q in qs:
+        r = subprocess.run([sys.executable, "-c",
+                            "import sys,json\nsys.path.insert(0, %r)\nimport native_replay as n\n"
+                            "from luqum.parser import parser\n"
+                            "q=json.load(sys.stdin)\n"
+                            "def f(q):\n"
+                            "    try:\n        t=parser.parse(q)\n"
+                            "    except Exception as e:\n        return '%%s: %%s' %% (type(e).__name__, e)\n"
+                            "    return '%%r / %%r / %%r' %% (t, t.__str__(head_tail=True) if t is not None else None, "
+                            "[(m.pos, m.size) for _, m in n.walk(t)] if t is not None else None)\n"
+                            "print(json.dumps(f(q)))" % os.path.dirname(os.path.abspath(__file__))],
+                           input=json.dumps(q), capture_output=True, text=True, env=os.environ)
+        ref[q] = json.loads(r.stdout)
+    for fn_name, fn in (("parser.parse", parser.parse), ("thread.parse", TH.parse)):
+        for pre in ["  ", "x  ", "(a ", "a^.", "\\"] + qs:
+            for q in qs:
+                outcome(fn, pre)
+                o = outcome(fn, q)
+                if o != ref[q]:
+                    return {"violated": True, "observation": "%s(%r) after %s(%r) gave %s; a first parse gives %s"
+                            % (fn_name, q, fn_name, pre, o, ref[q])}
+    return {"violated": False, "observation": "same outcomes as first parses"}
+
+
 def script(req):
     """generic: run a python snippet that sets `violated` and `observation`"""
     ns = {}
@@ -101,7 +140,7 @@ def script(req):
     return {"violated": bool(ns.get("violated")), "observation": str(ns.get("observation"))}
 
 
-KINDS = {"C01": c01, "C02": c02, "C04": c04, "script": script}
+KINDS = {"C01": c01, "C02": c02, "C04": c04, "C04seq": c04seq, "script": script}
 
 
 def main():
